@@ -148,7 +148,7 @@ Print Assumptions C11_json_number_not_string.
 
 Example C11_json_number_example :
   json_number [45; 49; 46; 53; 101; 43; 51] = true /\ json_number [48] = true /\ json_number [48; 49] = false.
-Proof. repeat split; reflexivity. Qed.
+Proof. exact json_number_example. Qed.
 Print Assumptions C11_json_number_example.
 
 (* non-vacuity *)
@@ -166,5 +166,5 @@ Print Assumptions C11_gap_false_example.
 
 Example C11_oracle_hypotheses_inhabited :
   (forall c, ex_print c = true -> is_break c = false) /\ (forall t, ex_no t = true -> ex_no t = true).
-Proof. exact (conj ex_print_not_break ex_number_isnumber). Qed.
+Proof. exact oracle_hypotheses_inhabited. Qed.
 Print Assumptions C11_oracle_hypotheses_inhabited.
